@@ -74,6 +74,11 @@ CROSS = [[NEGRA, SPLIT, RAISE], [ROOT_ATTACH, NEGRA, SPLIT, RAISE]]
 PUNCTP = [[ROOT_ATTACH, PVL], [ROOT_ATTACH, PSY], [ROOT_ATTACH, PSYR], [PRT], [ROOT_ATTACH, PRT]]
 ALLOPS = [ROOT_ATTACH, NEGRA, SPLIT, RAISE, TOP, PVL, PRT, PSY, BIN, COL, UNC]
 
+# phrases made of punctuation only: the "never the last child" guards of the punctuation operations are live
+# conditions, several moves of one call interact (4 tokens, 3 phrases is the smallest interaction)
+PUNCT_DENSE = model(4, 3, NMin=3, toks=(TOK_QUOTE, PLAIN), programs=[[ROOT_ATTACH, PSY], [PRT], [ROOT_ATTACH, PVL]],
+                    note='punctuation-only phrases')
+
 MODELS = {
     'C12': {'quick': [model(5, 4, programs=[[ROOT_ATTACH]])],
             'thorough': [model(5, 5, programs=[[ROOT_ATTACH], [ROOT_ATTACH, ROOT_ATTACH]]),
@@ -82,6 +87,7 @@ MODELS = {
             'thorough': [model(5, 3, toks=(PLAIN, TOK_HD), edges=('--', 'HD'), programs=CROSS[:1]),
                          model(4, 3, MaxChain=2, toks=(PLAIN, TOK_HD), edges=('--', 'HD'), programs=CROSS)]},
     'C13': {'quick': [model(4, 2, toks=(PLAIN, TOK_COMMA, TOK_QUOTE), programs=PUNCTP[:2] + PUNCTP[3:]),
+                      PUNCT_DENSE,
                       model(3, 3, MaxChain=2, toks=(PLAIN, TOK_COMMA, TOK_QUOTE, TOK_REL), programs=PUNCTP)],
             'thorough': [model(5, 2, toks=(PLAIN, TOK_COMMA, TOK_QUOTE), programs=PUNCTP[:2] + PUNCTP[3:]),
                          model(4, 3, MaxChain=2, toks=(PLAIN, TOK_COMMA, TOK_QUOTE, TOK_REL), programs=PUNCTP)]},
@@ -100,6 +106,7 @@ MODELS = {
                          model(4, 3, MaxChain=2, toks=(PLAIN, TOK_TR1, TOK_TR2, TOK_TR3), labels=('X', 'NP-1', 'S=2-1'), programs=[[o] for o in PTBS]),
                          model(3, 3, MaxChain=2, programs=[[o] for o in INS + SUB + FILT] + [[INS[3], SUB[5]], [SUB[2], INS[1]]])]},
     'C04': {'quick': [model(3, 2, MaxChain=2, toks=(PLAIN, TOK_COMMA, TOK_QUOTE), ops=ALLOPS, MaxOps=2),
+                      PUNCT_DENSE,
                       model(4, 2, toks=(PLAIN, TOK_COMMA), ops=ALLOPS, MaxOps=2, NMin=4),
                       model(4, 2, toks=(PLAIN, TOK_HD), NMin=3,
                             programs=CROSS + [[NEGRA, SPLIT, RAISE, BIN], [ROOT_ATTACH, NEGRA, BIN, COL, UNC], [TOP, NEGRA, SPLIT, RAISE]])],
@@ -258,8 +265,10 @@ def random_cases(prop, tier, seed, mods):
         words = ['w', 'w', ',', '.', '*T*-1', '*', '*U*', '*-3']
 
 
+    dense = [False]
+
     def wordf(r, p):
-        x = r.choice(words)
+        x = r.choice(['w', '"', '"', '(', ')', "'", '"'] if dense[0] else words)
         return 'w%d' % p if x == 'w' else x
 
     def fix_traces(T):
@@ -270,6 +279,7 @@ def random_cases(prop, tier, seed, mods):
             T['nodes'][-1]['a']['word'] = 'wz'
             T['nodes'][-1]['a']['lab'] = ['T']
     for k in range(n):
+        dense[0] = prop in ('C13', 'C04') and k % 4 == 3      # phrases consisting of punctuation only
         T = treeio.random_tree(rnd, nmax=8 if tier == 'quick' else 11, maxcons=6,
                                labels=('S', 'NP', 'VP', 'NP-1') if prop not in ('C15', 'C05', 'C04')
                                else ('S', 'NP', 'VP', 'NP-1', 'CO', 'DL', 'PRN', 'INTJ', 'PP', 'FRAG'),
